@@ -113,7 +113,16 @@ mod time_cache;
 mod topic;
 mod transform;
 mod types;
+#[cfg(libp2p_verif)] pub mod verif_c32;
+#[cfg(libp2p_verif)] pub mod verif_c33;
 
+#[cfg(libp2p_verif)] pub mod verif_c30;
+#[cfg(libp2p_verif)] pub mod verif_c27;
+#[cfg(libp2p_verif)] pub mod verif_c31;
+#[cfg(libp2p_verif)] pub use behaviour::verif_c34;
+#[cfg(libp2p_verif)] pub use behaviour::verif_c36;
+#[cfg(libp2p_verif)] pub use behaviour::verif_c28;
+#[cfg(libp2p_verif)] pub use config::verif_c34_cfg;
 #[cfg(feature = "metrics")]
 pub use metrics::Config as MetricsConfig;
 
